@@ -540,6 +540,13 @@ func (t *tcode) computeImpure() {
 						calls[key] = append(calls[key], k)
 					}
 				}
+			case *ast.IndexExpr:
+				if tv, ok := t.L.info.Types[x.X]; ok && tv.Type != nil {
+					switch tv.Type.Underlying().(type) {
+					case *types.Slice, *types.Array:
+						direct[key] = true
+					}
+				}
 			case *ast.RangeStmt:
 				direct[key] = true
 			case *ast.SelectorExpr:
@@ -865,6 +872,22 @@ func (e *emitter) expr(x ast.Expr, h *hoist) string {
 			return e.hoistCall(h, "Go.deref "+e.atom(e.expr(x.X, h)), true)
 		}
 		return e.expr(x.X, h)
+	case *ast.IndexExpr:
+		switch e.typeOf(x.X).Underlying().(type) {
+		case *types.Slice, *types.Array:
+			if isBytesType(e.typeOf(x.X)) {
+				e.t.fail(x, "index into a byte string")
+			}
+			xs := e.expr(x.X, h)
+			idx := e.expr(x.Index, h)
+			if ib, ok := e.typeOf(x.Index).Underlying().(*types.Basic); ok {
+				if _, signed, _ := bitsOf(ib); !signed {
+					idx = "(Int.ofNat " + idx + ")"
+				}
+			}
+			return e.hoistCall(h, "Go.sliceGet "+e.atom(xs)+" "+e.atom(idx), true)
+		}
+		e.t.fail(x, "unsupported index expression")
 	case *ast.SliceExpr:
 		if x.Low == nil && x.High == nil && x.Max == nil {
 			return e.expr(x.X, h) // x[:] — same contents
@@ -911,6 +934,7 @@ func (e *emitter) expr(x ast.Expr, h *hoist) string {
 var nilableFields = map[string]bool{
 	coreMod + "/types.Block.V2":                          true,
 	coreMod + "/types.V2Transaction.NewFoundationAddress": true,
+	coreMod + "/consensus.V2FileContractElementDiff.Revision": true,
 }
 
 // isPtrField: x selects a struct field of pointer type (modelled as Option)
